@@ -31,7 +31,7 @@ def run(ctx):
         ctx.tlc_mc(mod, cfg, expect_violation=True)
     q = ctx.tlc_gen("MC_PNQueue", "Gen_PNQueue.cfg", num=1500 if T else 150, depth=15)
     ctx.write_scenarios("pnqueue", q)
-    s = ctx.tlc_gen("MC_Bbr", "Gen_Bbr.cfg", num=2000 if T else 200, depth=19)
+    s = ctx.tlc_gen("MC_Bbr", "Gen_Bbr.cfg", num=2000 if T else 100, depth=15)
     ctx.write_scenarios("bbr", s)
     ctx.go_test("core", "./internal/congestion/bbr/", "TestVerif_C12", ["harness/core/internal/congestion/bbr/c12_queue_test.go",
                                                                           "harness/core/internal/congestion/bbr/c12_bbr_test.go"])
